@@ -53,7 +53,7 @@ Fixpoint sumz (l : list Z) : Z := match l with [] => 0 | x :: r => x + sumz r en
 Definition input_frames (sc : scen) : list Z :=
   (fix go (l : list (Z * Z * Z)) : list Z :=
      match l with
-     | (k, id, _) :: r => if k =? 0 then id :: go r else []
+     | (k, id, _) :: r => if (k =? 0) || (k =? 7) || (k =? 8) then id :: go r else []
      | [] => []
      end) (sc_input sc).
 
@@ -64,7 +64,7 @@ Definition property (sc : scen) (o : obs) : verdict :=
      called, or it sends nothing, or the run is serialized): data arriving after the read side
      was shut down makes the kernel reset the connection, which may destroy flushed data — an
      environment outside the statement (peers that READ promptly, slowly or late) *)
-  let peer_quiet := (sc_waitinput sc =? 1) || (match sc_input sc with [] => true | _ => false end) || (sc_mode sc =? 1) in
+  let peer_quiet := (1 <=? sc_waitinput sc) || (match sc_input sc with [] => true | _ => false end) || (sc_mode sc =? 1) in
   let clean := negb (has_rst sc) && (o_stuck o =? 0) && peer_quiet in
   (* 1: only accepted packets reach the peer, each at most once, intact, with the expected frame size *)
   let p1 := forallb (fun w => match w with (id, n, okb) => (okb =? 1) && mem id all_ok && (n =? frame_size o id) end) (o_wire o)
@@ -105,11 +105,17 @@ Definition property (sc : scen) (o : obs) : verdict :=
     end in
   (* 4: the stream ends, and on a frame boundary *)
   let p4 := (negb (clean && (o_eof o =? 1)) || (o_garbage o =? 0)) && (o_nofin o =? 0)
-            (* ... with EOF, not with a reset, when the endpoint never reads and the peer was silent
-               while we closed (data arriving after the shutdown legitimately provokes a kernel RST) *)
-            && (has_rst sc || sc_hr sc || negb (sc_waitinput sc =? 1) || (o_peerreset o =? 0)) in
+            (* ... with EOF, not with a reset, when the peer sent nothing after (or at all before) the
+               close began: data arriving after the shutdown legitimately provokes a kernel RST *)
+            && (has_rst sc || negb ((1 <=? sc_waitinput sc) || (match sc_input sc with [] => true | _ => false end))
+                || (o_peerreset o =? 0)) in
   (* 5: inbound frames delivered once, in wire order, bound to this connection, intact *)
-  let p5 := is_prefix (o_delivered o) (input_frames sc) && (o_badendpoint o =? 0) in
+  (* ... and all of them, when the peer sent only well-formed frames, every pause was below the read
+     time-out and the harness waited for the deliveries before any Close was called *)
+  let all_frames := Nat.eqb (length (input_frames sc)) (length (sc_input sc)) in
+  let p5 := is_prefix (o_delivered o) (input_frames sc) && (o_badendpoint o =? 0)
+            && (negb ((sc_waitinput sc =? 2) && all_frames && (o_inconcl o =? 0) && (o_stuck o =? 0) && sc_hr sc)
+                || Nat.eqb (length (o_delivered o)) (length (input_frames sc))) in
   (* 6: counters equal what crossed the wire *)
   let nread := count_ev 2 0 20 (o_events o) in
   let p6 :=
